@@ -89,6 +89,9 @@ impl<const N: usize, T: Send + Sync> AtomicIter<T> for ConIterOfArray<N, T> {
 
     #[inline(always)]
     fn progress_and_get_begin_idx(&self, number_to_fetch: usize) -> Option<usize> {
+        // advancing by more than the length is never needed to pass the end,
+        // and would let the counter wrap around and start over after a huge request
+        let number_to_fetch = number_to_fetch.min(self.initial_len());
         let begin_idx = self.counter().fetch_and_add(number_to_fetch);
         match begin_idx.cmp(&self.initial_len()) {
             Ordering::Less => Some(begin_idx),
